@@ -87,6 +87,12 @@ def gen_case(r):
         if r.random() < 0.25:
             rel_txt = '\\not \\(' + ('\\value{%s}>%d \\or \\value{%s}=%d' % (c, lim, c, lim)) + '\\)'
             g.features.add('loop-with-not')
+        if r.random() < 0.5:
+            # the loop test also holds an atom of the other kinds (length tests, \equal, \boolean, \isodd ...) that does not change
+            # its value: `.. \and <true atom>` or `.. \or <false atom>`; it is evaluated anew on every pass
+            a_txt, a_val = g.atom()
+            rel_txt = ('\\( %s \\) \\and %s' if a_val else '\\( %s \\) \\or %s') % (rel_txt, a_txt)
+            g.features.add('loop-test-with-other-atom')
         body += '\\setcounter{%s}{%d}\\whiledo{%s}{L%sy\\stepcounter{%s}} ' % (c, start, rel_txt, alpha(j).upper(), c)
         loops.append([c, 'L%sy' % alpha(j).upper(), max(0, lim - start), max(start, lim) if lim > start else start])
     pre = g.preamble()
